@@ -31,6 +31,16 @@ MODELS = {
     # a range of 150 rows of which only the first three are used when it is first evaluated; A140 gets its first value later
     'growing': dict(cells={'A1': 1, 'A2': 2, 'A3': 3, 'C1': '=SUM(A1:A150)', 'D1': '=COUNT(A1:A150)', 'E1': '=C1*10'},
                     names={'inp': 'Sheet1!$A$1'}, inputs=['A1'], late=['A140']),
+    # error values on every route: computed in a cell of a range, an error literal in an unselected / selected branch, as a scalar argument,
+    # through AND / NOT / MAX; the input switches them on (2) and off (5).  (Footprint: an error caught by a function keeps the frames it was
+    # raised through alive unless its traceback is dropped - 10 KB per evaluation before the fix recorded in known_findings.json.)
+    'errors': dict(cells={'A1': 2, 'A2': '=1/(A1-2)', 'A3': 3, 'B1': '=SUM(A1:A3)', 'B2': '=IF(A1>2,A1,#N/A)', 'C1': '=SUM(A1,B2)',
+                          'C2': '=AND(A1:A3)', 'C3': '=NOT(B2)', 'D1': '=MAX(A1:A3)+0'},
+                   names={'inp': 'Sheet1!$A$1'}, inputs=['A1'], values=[2, 5]),
+    # a formula that FAILS with a Python exception for some inputs (an unknown function in the branch selected by A1 > 3): the caller catches the
+    # failure, corrects the input and evaluates again
+    'raising': dict(cells={'A1': 1, 'B1': '=IF(A1>3,NOSUCHFUNCTION(A1),A1*2)', 'C1': '=B1+1', 'D1': '=A1+C1'},
+                    names={'inp': 'Sheet1!$A$1'}, inputs=['A1'], values=[1, 5]),
     # Q9 holds nothing when the model is built: a cell that receives its first value later
     'late': dict(cells={'A1': 1, 'B1': '=A1+Q9', 'C1': '=B1*2', 'D1': '=IF(ISBLANK(Q9),"none",Q9)'},
                  names={'inp': 'Sheet1!$A$1'}, inputs=['A1'], late=['Q9']),
@@ -131,7 +141,12 @@ def oracle_history(c):
                     return False, f'step {step}: set through the name reaches {name_target}', f'cell holds {got!r}'
             elif op[0] == 'eval':
                 exp = fresh_values(c['model'], inputs)[op[1]]
-                obs = observe(evs[op[2]].evaluate(op[1]))
+                try:
+                    obs = observe(evs[op[2]].evaluate(op[1]))
+                except Exception as ex:      # noqa
+                    if exp[0] == 'raise':
+                        continue                    # a fresh model fails on these inputs too; the caller catches it and carries on
+                    return False, f'step {step}: evaluate({op[1]}) == fresh model {exp}', f'raise {type(ex).__name__}: {str(ex)[:150]}'
                 if not _same(obs, exp):
                     return False, f'step {step}: evaluate({op[1]}) == fresh model {exp}', obs
                 stored = observe(model.cells[op[1]].value)
